@@ -147,13 +147,8 @@ theorem record_is_init_record :
     Generated.SignFlow.serveSignData.sameRecord = true ∧ Generated.SignFlow.signCmdData.sameRecord = true := by
   decide
 
-/-- full statement that is *not* proved here: the fields of the record equal the key, signature
-    type, digest, certificate, client and file name used.  Only `record_is_init_record` (syntactic
-    data flow) is proved; the field values are checked dynamically on every 2xx response. -/
-def record_names_what_was_used_full : Prop :=
-  ∀ (keyUsed sigType digest certFp client filename : String) (record : List (String × String)),
-    record = [("sig.keyname", keyUsed), ("sig.type", sigType), ("sig.hash", digest),
-              ("sig.x509.fingerprint", certFp), ("client.name", client), ("client.filename", filename)]
+/- The values: `record_names_what_was_used` / `signCmd_record_names_what_was_used` (Props/C06_Record.lean,
+   over the model Relic.AuditRec) with the generated obligations of Props/C06_Fields.lean. -/
 
 /-! ### AppendTo: one O_APPEND open, one Write of `marshal ++ "\n"` -/
 
